@@ -17,9 +17,10 @@ from harness.common import exc_name
 
 PID = "C17"
 TITLE = "Flow iterators equal their Python reference (Slice is list slicing)"
-LEAN_MODULES = ["LenaModel.Props.C17"]
-LEAN_SOURCES = ["LenaModel/Model/C17.lean", "LenaModel/Model/C17Sess.lean", "LenaModel/Lemmas/C17.lean",
-                "LenaModel/Props/C17.lean"]
+LEAN_MODULES = ["LenaModel.Props.C17", "LenaModel.Props.C17Ext"]
+LEAN_SOURCES = ["LenaModel/Model/C17.lean", "LenaModel/Model/C17Sess.lean", "LenaModel/Model/C17Ext.lean",
+                "LenaModel/Lemmas/C17.lean", "LenaModel/Lemmas/C17Sess.lean", "LenaModel/Props/C17.lean",
+                "LenaModel/Props/C17Ext.lean"]
 DRIVER = "drivers/C17.lean"
 THEOREMS = [
     "Lena.C17.slice_run_eq_pyslice",
@@ -50,6 +51,25 @@ THEOREMS = [
     "Lena.C17.slice_fill_ignores_runs",
     "Lena.C17.stopfill_persists",
     "Lena.C17.fill_trace_eq",
+    # the rest of iterators.py / RunningChunkBy (Model/C17Ext.lean, Props/C17Ext.lean)
+    "Lena.C17.goodStepB_iff",
+    "Lena.C17.hasNegB_iff",
+    "Lena.C17.fillOutcomes_eq",
+    "Lena.C17.fillValues_eq",
+    "Lena.C17.slice_run_eq_pyslice_ms",
+    "Lena.C17.slice_rejects_huge",
+    "Lena.C17.slice_rejects_huge_step",
+    "Lena.C17.slice_huge_deque_overflows",
+    "Lena.C17.sliceOfArgs_forms",
+    "Lena.C17.slice_args_run",
+    "Lena.C17.sliceEq_sound",
+    "Lena.C17.countFromEq_iff",
+    "Lena.C17.chainEq_iff",
+    "Lena.C17.chunks_container",
+    "Lena.C17.chunks_are_windows_zero",
+    "Lena.C17.chunks_are_windows_all",
+    "Lena.C17.chain_shared_conservation",
+    "Lena.C17.chain_shared_stop",
 ]
 TRUSTED = [
     "Lean 4.33.0 kernel; axioms limited to propext, Classical.choice, Quot.sound (audited by #print axioms on every run)",
@@ -58,13 +78,20 @@ TRUSTED = [
     "property's whole enumerated scope and on schedules of repeated / interleaved use of one instance",
     "itertools.islice / collections.deque / itertools.chain / itertools.count semantics as transcribed (validated likewise)",
     "JSON line protocol encoders (harness/props/c17.py, drivers/C17.lean)",
+    "sys.maxsize == 2**63 - 1 on the machine that runs the check (asserted); the limits of itertools.islice and "
+    "collections.deque(maxlen) as transcribed in Model/C17Ext.lean (mkSliceMS, dequeMaxlen), validated by the correspondence",
 ]
 ASSUMPTIONS = [
     "finite flows of integers stand for finite flows of arbitrary values (the code never inspects the values)",
     "pySlice (Lean) is Python list slicing: checked against xs[a:b:s] on every case",
-    "a flow handed to run is an iterator (the framework converts with flow_to_iter); flows of different runs are "
-    "different iterator objects; Chain calls that share one-shot iterators are checked against itertools.chain by the "
-    "oracle only (the model covers re-iterable iterables)",
+    "a flow is any finite iterable (lena.core.flow_to_iter): the model's list semantics must hold whether run gets an "
+    "iterator, a list, a tuple, a range or a generator; flows of different runs are different objects",
+    "start and stop beyond +-sys.maxsize are outside the oracle (limits of islice/deque: LenaValueError at construction "
+    "resp. OverflowError during run); they are modelled (mkSliceMS, sliceRunMS) and checked by the correspondence; the "
+    "theorems about them carry the hypothesis InRange",
+    "Reverse on an endless flow (it must consume the whole flow) and CountFrom with non-integer numbers (floats are not "
+    "compared) are outside; __eq__/__repr__ and the LenaTypeError of RunningChunkBy.__init__ are outside the statement: "
+    "correspondence only",
 ]
 RULE = ("quick and thorough: exhaustive enumeration of start,stop in {None,-7..7} x step in {None,1..4} x len 0..10 "
         "(plus one- and two-argument call forms, steps 0,-1,-3 for rejection), fill_into for all non-negative "
@@ -75,7 +102,14 @@ RULE = ("quick and thorough: exhaustive enumeration of start,stop in {None,-7..7
         "lists/tuples/ranges/shared one-shot iterators (lens 0..3 cubed); CountFrom: every schedule of <=7 operations with "
         "<=3 calls of one instance; twin instances with equal arguments used in turn; fill_into continued after "
         "LenaStopFill (whole non-negative scope), two Slice instances filled in turn, run and fill_into of one Slice "
-        "interleaved; thorough adds 30000 random schedules. Non-trivial: result non-empty, any event, or an exception.")
+        "interleaved; thorough adds 30000 random schedules. Flows are given as iterators and, for a part of every family, as "
+        "lists/tuples/ranges/generators. Extension: call forms Slice(stop)/Slice(start,stop)/Slice(start,stop,step) with "
+        "both constructors (Slice, ISlice), 0 and 4 arguments, arguments at and beyond +-sys.maxsize in every position, "
+        "float steps, __eq__/__repr__ of Slice/CountFrom/Reverse/Chain on all pairs of a palette, type checks of "
+        "CountFrom.__init__ (7x7 argument kinds, against itertools.count) and RunningChunkBy.__init__, RunningChunkBy "
+        "with tuple/list/star/namedtuple/frozenset containers for chunk sizes 0..6 and lengths 0..10, CountFrom beyond 64 "
+        "bits; thorough adds 4000 random argument tuples drawn from the big values. Non-trivial: result non-empty, any "
+        "event, or an exception.")
 CASE_TIMEOUT = 10
 
 
@@ -88,7 +122,17 @@ def _slice_cases(starts, stops, steps, lens):
 
 
 def gen_cases(ctx):
-    rng = ctx.rng
+    """a generator (the shared machinery samples it lazily)"""
+    yield from _base_cases()
+    yield from _reuse_cases()
+    yield from _ext_cases()
+    ctx.exhaustive = True
+    if ctx.tier == "thorough":
+        ctx.exhaustive = False  # the random part is sampled
+        yield from _random_cases(ctx.rng)
+
+
+def _base_cases():
     idx = [None] + list(range(-7, 8))
     cases = list(_slice_cases(idx, idx, [None, 1, 2, 3, 4], range(0, 11)))
     # call forms Slice(stop), Slice(start, stop)
@@ -133,29 +177,119 @@ def gen_cases(ctx):
             extra.append(dict(c, vk="falsy"))
             extra.append(dict(c, vk="none"))
     cases.extend(extra)
-    cases.extend(_reuse_cases())
-    ctx.exhaustive = True
-    if ctx.tier == "thorough":
-        ctx.exhaustive = False  # the random part is sampled
-        for _ in range(60000):
-            r = rng.random()
-            def ri():
-                return None if rng.random() < 0.15 else rng.randint(-70, 70)
-            if r < 0.7:
-                cases.append({"op": "slice", "start": ri(), "stop": ri(),
-                              "step": rng.choice([None, 1, 2, 3, 5, 7, 12]), "n": rng.randint(0, 60), "form": 3,
-                              "vk": rng.choice(["int", "int", "falsy", "none"])})
-            elif r < 0.9:
-                a, b = ri(), ri()
-                cases.append({"op": "fill_into", "start": None if a is None else abs(a),
-                              "stop": None if b is None else abs(b),
-                              "step": rng.choice([None, 1, 2, 3, 5, 7, 12]), "n": rng.randint(0, 90)})
-            else:
-                cases.append({"op": "chunks", "cs": rng.randint(1, 9), "n": rng.randint(0, 40),
-                              "container": rng.choice(["tuple", "list", "star"])})
-        for _ in range(30000):
-            cases.append(_random_reuse_case(rng))
+    # the flow given to run is any finite iterable: a list, a tuple, a range, a generator (not only an iterator)
+    for c in list(cases):
+        if c["op"] == "slice" and c.get("form", 3) == 3 and "vk" not in c:
+            fk = {1: "list", 5: "list", 10: "list", 6: "range", 4: "gen", 3: "tuple"}.get(c["n"])
+            if fk:
+                cases.append(dict(c, flow=fk))
+        elif c["op"] in ("reverse", "chunks") and "vk" not in c:
+            for fk in ("list", "range", "gen"):
+                cases.append(dict(c, flow=fk))
     return cases
+
+
+def _random_cases(rng):
+    for _ in range(60000):
+        r = rng.random()
+        def ri():
+            return None if rng.random() < 0.15 else rng.randint(-70, 70)
+        if r < 0.7:
+            vk = rng.choice(["int", "int", "falsy", "none"])
+            c = {"op": "slice", "start": ri(), "stop": ri(),
+                 "step": rng.choice([None, 1, 2, 3, 5, 7, 12]), "n": rng.randint(0, 60), "form": 3, "vk": vk}
+            fk = rng.choice(["iter", "iter", "list", "tuple", "gen"] + (["range"] if vk == "int" else []))
+            if fk != "iter":
+                c["flow"] = fk
+            yield c
+        elif r < 0.9:
+            a, b = ri(), ri()
+            yield {"op": "fill_into", "start": None if a is None else abs(a),
+                   "stop": None if b is None else abs(b),
+                   "step": rng.choice([None, 1, 2, 3, 5, 7, 12]), "n": rng.randint(0, 90)}
+        else:
+            yield {"op": "chunks", "cs": rng.randint(1, 9), "n": rng.randint(0, 40),
+                   "container": rng.choice(["tuple", "list", "star"])}
+    for _ in range(30000):
+        yield _random_reuse_case(rng)
+    big = _BIG + [None, -3, 0, 2, 5]
+    for _ in range(4000):
+        k = rng.choice([1, 2, 3, 3, 3])
+        args = [rng.choice(big) for _ in range(k)]
+        if k == 3 and rng.random() < 0.5:
+            args[2] = rng.choice([None, 1, 2, _MS, _MS + 1])
+        yield {"op": "slice_args", "args": args, "n": rng.randint(0, 6), "ctor": rng.choice(["Slice", "ISlice"]),
+               "flow": rng.choice(["iter", "list"])}
+
+
+# ---- the rest of iterators.py: limits of islice/deque, argument forms, ISlice, __eq__/__repr__, type checks,
+#      containers of RunningChunkBy, Chain over shared one-shot iterators ---------------------------------------
+_MS = 2 ** 63 - 1            # sys.maxsize of the platform the check runs on (asserted in run_impl)
+_BIG = [_MS, _MS + 1, -_MS, -_MS - 1, 2 ** 64 + 1, -(2 ** 64) - 1]
+
+
+def _ext_cases():
+    idx = [None] + list(range(-7, 8))
+    # call forms with both constructors; wrong numbers of arguments
+    for ctor in ("Slice", "ISlice"):
+        for b in idx:
+            yield {"op": "slice_args", "args": [b], "n": 6, "ctor": ctor}
+        for a in (None, -7, -2, 0, 1, 4):
+            for b in idx:
+                yield {"op": "slice_args", "args": [a, b], "n": 6, "ctor": ctor}
+                for st in (None, 1, 3, 0, -1):
+                    yield {"op": "slice_args", "args": [a, b, st], "n": 6, "ctor": ctor}
+        yield {"op": "slice_args", "args": [], "n": 3, "ctor": ctor}
+        yield {"op": "slice_args", "args": [1, 2, 3, 4], "n": 3, "ctor": ctor}
+    # arguments at and beyond sys.maxsize
+    small = (None, -2, 0, 3)
+    for big in _BIG:
+        for x in small:
+            for y in small:
+                for n in (0, 4):
+                    yield {"op": "slice_args", "args": [big, x, y if y is None or y > 0 else 1], "n": n, "ctor": "Slice"}
+                    yield {"op": "slice_args", "args": [x, big, y if y is None or y > 0 else 1], "n": n, "ctor": "Slice"}
+                    yield {"op": "slice_args", "args": [x, y, big], "n": n, "ctor": "Slice"}
+        yield {"op": "slice_args", "args": [big], "n": 4, "ctor": "Slice"}
+        for big2 in _BIG:
+            yield {"op": "slice_args", "args": [big, big2], "n": 4, "ctor": "Slice"}
+    # steps that are not integers: to be rejected at construction
+    for st in ("f:2.0", "f:1.5", "f:1.0", "f:0.0", "f:-1.0", "f:3.0"):
+        for a, b in ((None, None), (0, 3), (-3, 3), (-1, None), (None, -2), (1, -1)):
+            yield {"op": "slice_args", "args": [a, b, st], "n": 5, "ctor": "Slice"}
+    # __eq__ / __repr__
+    sl_args = [[3], [None], [-1], [1, 3], [1, 3, None], [None, 3], [0, 3], [1, 3, 1], [1, 3, 2], [-2, None, 2],
+               [None, None, None], [None, None], [-2, None], [_MS], [-_MS - 1]]
+    for a in sl_args:
+        for b in sl_args:
+            yield {"op": "eqrepr", "el": "slice", "a": a, "b": b}
+    cf = [[0, 1], [0, 2], [1, 1], [-3, -2], [2 ** 64, 1], [0, 0]]
+    for a in cf:
+        for b in cf:
+            yield {"op": "eqrepr", "el": "countfrom", "a": a, "b": b}
+    yield {"op": "eqrepr", "el": "reverse", "a": None, "b": None}
+    ch = [[], [[]], [[1, 2]], [[1, 2], [3]], [[1], [2, 3]], [[1, 2], []], [[], [1, 2]]]
+    for a in ch:
+        for b in ch:
+            yield {"op": "eqrepr", "el": "chain", "a": a, "b": b}
+    # type checks at construction
+    pal = ["i:0", "i:7", "f:2.5", "s:a", "none", "l:1", "F:1/3"]
+    for a in pal:
+        for b in pal:
+            yield {"op": "init_check", "el": "countfrom", "start": a, "step": b}
+    for cont in ("tuple", "list", "star", "namedtuple", "set", "i:5", "s:tuple", "none"):
+        yield {"op": "init_check", "el": "chunks", "container": cont}
+    # RunningChunkBy with its containers, chunk sizes 0..6
+    for cs in range(0, 7):
+        for n in range(0, 11):
+            for cont in ("tuple", "list", "star", "namedtuple", "set"):
+                yield {"op": "chunks_c", "cs": cs, "n": n, "container": cont, "vals": "int"}
+                if n in (5, 8):
+                    yield {"op": "chunks_c", "cs": cs, "n": n, "container": cont, "vals": "dup"}
+    # CountFrom beyond 64 bits
+    for a, st in ((2 ** 64, 2 ** 63), (-(2 ** 70), 2 ** 65 + 1), (_MS, 1)):
+        yield {"op": "countfrom", "start": a, "step": st, "n": 5}
+        yield {"op": "sess", "el": "countfrom", "start": a, "step": st, "tpl": "big", "ops": [[], 0, 0, [], 1, 0, 1]}
 
 
 # ---- one instance used more than once ------------------------------------------------------------
@@ -239,6 +373,10 @@ def _reuse_cases():
                 for tpl in TEMPLATES:
                     for lens in pairs[tpl]:
                         cases.append(dict(base, tpl=tpl, ops=_schedule(base, tpl, lens)))
+                # the flows given as containers / generators
+                cases.append(dict(base, tpl="seq", fk="list", ops=_schedule(base, "seq", (8, 5))))
+                cases.append(dict(base, tpl="lock", fk="range", ops=_schedule(base, "lock", (6, 9))))
+                cases.append(dict(base, tpl="part", fk="gen", ops=_schedule(base, "part", (7, 7))))
     # Reverse, RunningChunkBy
     for tpl in TEMPLATES:
         for n1 in range(0, 6):
@@ -246,14 +384,18 @@ def _reuse_cases():
                 lens = (n1, n2, 3)
                 base = {"op": "sess", "el": "reverse"}
                 cases.append(dict(base, tpl=tpl, ops=_schedule(base, tpl, lens)))
+                if n1 == 4:
+                    cases.append(dict(base, tpl=tpl, fk="list", ops=_schedule(base, tpl, lens)))
         for cs in range(1, 6):
             for cont in ("tuple", "list", "star"):
                 for lens in ((7, 4, 5), (3, 8, 6), (6, 6, 1), (0, 5, 9)):
                     base = {"op": "sess", "el": "chunks", "cs": cs, "container": cont}
                     cases.append(dict(base, tpl=tpl, ops=_schedule(base, tpl, lens)))
+                    if cont == "tuple":
+                        cases.append(dict(base, tpl=tpl, fk="range", ops=_schedule(base, tpl, lens)))
     # Chain over re-iterable iterables (every call sees all values) and over one-shot iterators shared by the calls
     for lens in list(itertools.product(range(0, 4), repeat=3)) + [()]:
-        for kind in ("list", "tuple", "range", "iter"):
+        for kind in ("list", "tuple", "range", "iter", "gen"):
             for tpl in TEMPLATES:
                 base = {"op": "sess", "el": "chain", "lens": list(lens), "kind": kind}
                 cases.append(dict(base, tpl=tpl, ops=[([] if isinstance(o, list) else o)
@@ -333,13 +475,15 @@ def _random_reuse_case(rng):
                 "pat": "random", "ops": ops}
     el = rng.choice(["slice", "slice", "slice", "reverse", "chunks", "chain", "countfrom"])
     case = {"op": "sess", "el": el, "tpl": "random"}
+    if el in ("slice", "reverse", "chunks") and rng.random() < 0.3:
+        case["fk"] = rng.choice(["list", "range", "gen", "tuple"])
     if el == "slice":
         case.update(start=ri(), stop=ri(), step=rng.choice([None, 1, 2, 3, 5]))
     elif el == "chunks":
         case.update(cs=rng.randint(1, 6), container=rng.choice(["tuple", "list", "star"]))
     elif el == "chain":
         case.update(lens=[rng.randint(0, 4) for _ in range(rng.randint(0, 4))],
-                    kind=rng.choice(["list", "tuple", "range", "iter"]))
+                    kind=rng.choice(["list", "tuple", "range", "iter", "gen"]))
     elif el == "countfrom":
         case.update(start=rng.randint(-20, 20), step=rng.randint(-4, 4))
     ops, ng = [], 0
@@ -406,7 +550,7 @@ def run_impl(case):
         except Exception as e:
             return {"e": exc_name(e), "phase": "init"}
         try:
-            return {"r": _encs(sl.run(iter(xs)))}
+            return {"r": _encs(sl.run(_mk_flow(case.get("flow"), xs)))}
         except Exception as e:
             return {"e": exc_name(e), "phase": "run"}
     if op == "fill_into":
@@ -428,7 +572,7 @@ def run_impl(case):
         return {"r": _encs(st.vals), "stop": stop_at}
     if op == "reverse":
         try:
-            return {"r": _encs(lena.flow.Reverse().run(iter(_vals(case))))}
+            return {"r": _encs(lena.flow.Reverse().run(_mk_flow(case.get("flow"), _vals(case))))}
         except Exception as e:
             return {"e": exc_name(e), "phase": "run"}
     if op == "chain":
@@ -458,7 +602,7 @@ def run_impl(case):
             return {"e": exc_name(e), "phase": "init"}
         try:
             # collect first, look afterwards: a consumer keeps the chunks it was given (`list(rcb.run(flow))`)
-            chunks = list(el.run(iter(_vals(case))))
+            chunks = list(el.run(_mk_flow(case.get("flow"), _vals(case))))
             return {"r": [_encs(c) for c in chunks]}
         except Exception as e:
             return {"e": exc_name(e), "phase": "run"}
@@ -514,8 +658,139 @@ def run_impl(case):
                 st = _Store()
                 ev.append(_fill_once(sl, st, o))
                 filled.extend(st.vals)
-        return {"ev": ev, "filled": _encs(filled)}
+        state = [sl._index, sl._next_index + 1] if hasattr(sl, "_index") else None
+        return {"ev": ev, "filled": _encs(filled), "state": state}
+    if op == "slice_args":
+        import sys
+        import warnings
+        assert sys.maxsize == _MS, "the model request assumes sys.maxsize == 2**63 - 1"
+        args = [_dec(a) for a in case["args"]]
+        ctor = getattr(lena.flow, case["ctor"])
+        with warnings.catch_warnings(record=True) as w:
+            warnings.simplefilter("always")
+            try:
+                sl = ctor(*args)
+            except Exception as e:
+                return {"e": exc_name(e), "phase": "init"}
+        out = {"repr": repr(sl), "warn": sorted({x.category.__name__ for x in w})}
+        try:
+            out["r"] = _encs(sl.run(_mk_flow(case.get("flow"), list(range(case["n"])))))
+        except Exception as e:
+            out.update(e=exc_name(e), phase="run")
+        return out
+    if op == "eqrepr":
+        def build(a):
+            el = case["el"]
+            if el == "slice":
+                return lena.flow.Slice(*a)
+            if el == "countfrom":
+                return lena.flow.CountFrom(*a)
+            if el == "reverse":
+                return lena.flow.Reverse()
+            return lena.flow.Chain(*a)
+        x, y = build(case["a"]), build(case["b"])
+        return {"eq": x == y, "ne": x != y, "repr": [repr(x), repr(y)], "refl": x == x, "sym": (y == x),
+                "other": [x == 1, x == "Slice(1)", x == lena.flow.End()]}
+    if op == "init_check":
+        def attempt(f):
+            try:
+                f()
+                return "ok"
+            except Exception as e:
+                return exc_name(e)
+        if case["el"] == "countfrom":
+            a, b = _dec(case["start"]), _dec(case["step"])
+            return {"r": attempt(lambda: lena.flow.CountFrom(a, b)), "ref": attempt(lambda: itertools.count(a, b))}
+        cont = _container(case["container"], 2)
+        return {"r": attempt(lambda: lena.flow.RunningChunkBy(2, *cont))}
+    if op == "chunks_c":
+        cont = _container(case["container"], case["cs"])
+        xs = _cvals(case)
+        try:
+            el = lena.flow.RunningChunkBy(case["cs"], *cont)
+        except Exception as e:
+            return {"e": exc_name(e), "phase": "init"}
+        try:
+            chunks = list(el.run(iter(xs)))
+        except Exception as e:
+            return {"e": exc_name(e), "phase": "run"}
+        return {"r": [_enc_chunk(case["container"], cont, c) for c in chunks]}
     raise ValueError(op)
+
+
+def _mk_flow(kind, xs):
+    """the flow as the caller hands it to run: an iterator (what a Sequence passes on), or any other finite iterable"""
+    if kind in (None, "iter"):
+        return iter(xs)
+    if kind == "list":
+        return list(xs)
+    if kind == "tuple":
+        return tuple(xs)
+    if kind == "range":     # the values of such cases are consecutive integers
+        return range(xs[0], xs[-1] + 1) if len(xs) else range(0)
+    if kind == "gen":
+        return (x for x in xs)
+    raise ValueError(kind)
+
+
+def _dec(v):
+    """arguments that JSON cannot carry: 'f:2.0' float, 'i:5' int, 's:a' str, 'none', 'l:1' list, 'F:1/3' Fraction"""
+    if not isinstance(v, str):
+        return v
+    if v == "none":
+        return None
+    k, x = v.split(":", 1)
+    if k == "f":
+        return float(x)
+    if k == "i":
+        return int(x)
+    if k == "s":
+        return x
+    if k == "l":
+        return [int(x)]
+    if k == "F":
+        import fractions
+        return fractions.Fraction(x)
+    raise ValueError(v)
+
+
+_NT = {}
+
+
+def _container(name, cs):
+    """positional arguments (container[, from_iterable]) of RunningChunkBy for a container name"""
+    import collections
+    if name == "tuple":
+        return (tuple,)
+    if name == "list":
+        return (list, True)
+    if name == "star":
+        return (lambda *a: list(a),)
+    if name == "namedtuple":
+        if cs not in _NT:
+            _NT[cs] = collections.namedtuple(f"P{cs}", [f"f{i}" for i in range(cs)])
+        return (_NT[cs],)
+    if name == "set":
+        return (frozenset, True)
+    return (_dec(name),)
+
+
+def _enc_chunk(name, cont, c):
+    """a chunk as the model tags it: tuple / list (also what container(*chunk) builds) / set (ascending)"""
+    if name == "tuple":
+        ok, k, v = type(c) is tuple, "tuple", list(c)
+    elif name in ("list", "star"):
+        ok, k, v = type(c) is list, "list", list(c)
+    elif name == "namedtuple":
+        ok, k, v = type(c) is cont[0], "list", list(c)
+    else:
+        ok, k, v = type(c) is frozenset, "set", sorted(c)
+    return {"k": k if ok else type(c).__name__, "v": v}
+
+
+def _cvals(case):
+    n = case["n"]
+    return [i % 3 for i in range(n)] if case.get("vals") == "dup" else list(range(n))
 
 
 def _fill_once(sl, store, v):
@@ -548,19 +823,26 @@ def _chain_iterables(case):
         return [tuple(x) for x in xss]
     if kind == "range":
         return [range(x[0], x[-1] + 1) if x else range(0) for x in xss]
+    if kind == "gen":
+        return [(v for v in x) for x in xss]
     return [iter(x) for x in xss]
+
+
+def _shared(case):
+    return case.get("el") == "chain" and case.get("kind") in ("iter", "gen")
 
 
 def _real_spawner(case):
     """Build ONE instance of the real element; return the function that makes a new generator from it."""
     import lena.flow
     el = case["el"]
+    fk = case.get("fk")
     if el == "slice":
         sl = lena.flow.Slice(case["start"], case["stop"], case["step"])
-        return lambda flow: sl.run(iter(flow))
+        return lambda flow: sl.run(_mk_flow(fk, flow))
     if el == "reverse":
         rv = lena.flow.Reverse()
-        return lambda flow: rv.run(iter(flow))
+        return lambda flow: rv.run(_mk_flow(fk, flow))
     if el == "chunks":
         cont = case["container"]
         if cont == "tuple":
@@ -569,10 +851,13 @@ def _real_spawner(case):
             rc = lena.flow.RunningChunkBy(case["cs"], list, from_iterable=True)
         else:
             rc = lena.flow.RunningChunkBy(case["cs"], lambda *a: list(a))
-        return lambda flow: rc.run(iter(flow))
+        return lambda flow: rc.run(_mk_flow(fk, flow))
     if el == "chain":
-        ch = lena.flow.Chain(*_chain_iterables(case))
-        return lambda flow: ch()
+        its = _chain_iterables(case)
+        ch = lena.flow.Chain(*its)
+        sp = lambda flow: ch()
+        sp.its = its
+        return sp
     if el == "countfrom":
         cf = lena.flow.CountFrom(case["start"], case["step"])
         return lambda flow: cf()
@@ -593,7 +878,9 @@ def _ref_spawner(case):
         return lambda flow: iter([conv(flow[i:i + cs]) for i in range(0, len(flow) - cs + 1)])
     if el == "chain":
         its = _chain_iterables(case)
-        return lambda flow: itertools.chain(*its)
+        sp = lambda flow: itertools.chain(*its)
+        sp.its = its
+        return sp
     if el == "countfrom":
         return lambda flow: itertools.count(case["start"], case["step"])
     raise ValueError(el)
@@ -623,6 +910,10 @@ def _play(case, spawn):
                     raw.append((o, next(gens[o])))
                 except StopIteration:
                     raw.append((o, stop))
+        if _shared(case):
+            # the calls share the one-shot iterators: what those still hold, taken from the iterators themselves
+            left = [v for it in spawn.its for v in itertools.islice(it, tail)]
+            return {"ev": enc(raw), "left": [_encv(v) for v in left]}
         rest = [list(itertools.islice(g, tail)) for g in gens]
     except Exception as e:
         return {"e": exc_name(e), "phase": "run", "ev": enc(raw)}
@@ -667,6 +958,8 @@ def model_requests(case):
         reqs = [{"op": "slice", "start": a, "stop": b, "step": s, "xs": xs}]
         if s is None or s >= 1:
             reqs.append({"op": "pyslice", "start": a, "stop": b, "step": s, "xs": xs})
+        if case.get("form", 3) == 3 and "vk" not in case and "flow" not in case and case["n"] == 0:
+            reqs.append({"op": "spec", "start": a, "stop": b, "step": s})
         return reqs
     if op == "fill_into":
         return [{"op": "fill_into", "start": case["start"] or 0, "stop": case["stop"], "step": case["step"] or 1,
@@ -688,8 +981,8 @@ def model_requests(case):
         elif el == "chunks":
             req.update(cs=case["cs"])
         elif el == "chain":
-            if case.get("kind") == "iter":
-                return []       # calls sharing one-shot iterators: not modelled, checked by the oracle only
+            if _shared(case):
+                return [{"op": "session", "el": "chain_shared", "xss": _chain_xss(case), "ops": case["ops"]}]
             req.update(xss=_chain_xss(case))
         elif el == "countfrom":
             req.update(start=case["start"], step=case["step"], tail=3)
@@ -718,6 +1011,22 @@ def model_requests(case):
     if op == "slice_inst":
         return [{"op": "slice_inst", "start": case["start"], "stop": case["stop"], "step": case["step"],
                  "ops": case["ops"]}]
+    if op == "slice_args":
+        if any(isinstance(a, str) for a in case["args"]):
+            return []           # a step that is not an integer: the model has integers only; oracle only
+        return [{"op": "slice_args", "args": case["args"], "xs": list(range(case["n"])), "ms": _MS}]
+    if op == "eqrepr":
+        return [{"op": "eqrepr", "el": case["el"], "a": case["a"], "b": case["b"]}]
+    if op == "init_check":
+        if case["el"] == "countfrom":
+            import numbers
+            return [{"op": "init_check", "el": "countfrom",
+                     "num": [isinstance(_dec(case[k]), numbers.Number) for k in ("start", "step")]}]
+        return [{"op": "init_check", "el": "chunks", "callable": callable(_container(case["container"], 2)[0])}]
+    if op == "chunks_c":
+        cont = {"namedtuple": "star"}.get(case["container"], case["container"])
+        return [{"op": "chunks_c", "cs": case["cs"], "xs": _cvals(case), "container": cont},
+                {"op": "windows", "cs": case["cs"], "xs": _cvals(case)}]
     raise ValueError(op)
 
 
@@ -739,6 +1048,8 @@ def compare(case, res, replies):
     m = _map_model(case, m)
     if op in ("sess", "twins", "fill_trace", "fill2", "slice_inst"):
         return _compare_reuse(case, res, replies)
+    if op in ("slice_args", "eqrepr", "init_check", "chunks_c"):
+        return _compare_ext(case, res, replies)
     if "e" in res and op not in ("slice",):
         return f"impl raised {res} vs model {m}"
     if op == "slice":
@@ -747,11 +1058,17 @@ def compare(case, res, replies):
                 return f"impl {res} vs model {m}"
         elif res["r"] != m["r"]:
             return f"impl {res['r']} vs model {m['r']}"
-        if len(replies) > 1:
+        if len(replies) > 1 and "r" in replies[1]:
             xs = list(range(case["n"]))
             ref = xs[case["start"]:case["stop"]:case["step"]]
             if replies[1].get("r") != ref:
                 return f"Lean pySlice {replies[1]} differs from Python slicing {ref}"
+        sp = replies[-1]
+        if "goodstep" in sp:
+            s_, a_, b_ = case["step"], case["start"], case["stop"]
+            want = {"goodstep": s_ is None or s_ >= 1, "hasneg": any(v is not None and v < 0 for v in (a_, b_))}
+            if sp != want:
+                return f"Lean goodStepB/hasNegB {sp} differ from the Python predicates {want}"
         return None
     if op == "fill_into":
         if "e" in res:
@@ -781,8 +1098,24 @@ def _compare_reuse(case, res, replies):
             return None
         return f"impl {res} vs model {m}"
     if op == "sess":
+        if _shared(case):
+            if res["ev"] != m["ev"] or res["left"] != m["left"]:
+                return f"impl events {res['ev']} left {res['left']} vs model events {m['ev']} left {m['left']}"
+            vals = [v for _, v in res["ev"] if v is not None]
+            if m["all"] != vals:
+                return f"Lean allValues {m['all']} differs from the values of the events {vals}"
+            return None
         if res["ev"] != m["ev"] or res["rest"] != m["rest"]:
             return f"impl events {res['ev']} rest {res['rest']} vs model events {m['ev']} rest {m['rest']}"
+        # the projections the theorems speak about, computed here from the events of the real code
+        ng = sum(1 for o in case["ops"] if isinstance(o, list))
+        vals = [[v for g_, v in res["ev"] if g_ == g and v is not None] for g in range(ng)]
+        nexts = [sum(1 for g_, _ in res["ev"] if g_ == g) for g in range(ng)]
+        if m["starts"] != ng or m["vals"] != vals or m["nexts"] != nexts:
+            return (f"Lean startsOf/valuesOf/nextsOf {m['starts']} {m['vals']} {m['nexts']} differ from the Python "
+                    f"projections {ng} {vals} {nexts}")
+        if m["pred"] != vals:
+            return f"genTake of a fresh generator {m['pred']} differs from the values yielded {vals}"
         return None
     if op == "twins":
         got = [res["a"], res["b"]]
@@ -799,7 +1132,57 @@ def _compare_reuse(case, res, replies):
         return None
     if op == "slice_inst":
         mev = ["Other:AttributeError" if e == "AttributeError" else e for e in m["ev"]]
-        return None if res["ev"] == mev else f"impl {res['ev']} vs model {mev}"
+        if res["ev"] != mev:
+            return f"impl {res['ev']} vs model {mev}"
+        if res["state"] is not None:
+            if res["state"] != m["state"]:
+                return f"impl (_index, _next_index+1) = {res['state']} vs model fill state {m['state']}"
+            outs = [e for e in res["ev"] if isinstance(e, str)]
+            if m["fo"] != outs or m["ft"] != outs:
+                return f"Lean fillOutcomes {m['fo']} / fillTrace over fillValues {m['ft']} vs fill_into outcomes {outs}"
+        return None
+    raise ValueError(op)
+
+
+_MODEL_EXC = {"TypeError": ("Other:TypeError", "init"), "LenaValueError": ("LenaValueError", "init"),
+              "OverflowError": ("Other:OverflowError", "run"), "IndexError": ("Other:IndexError", "run")}
+
+
+def _compare_ext(case, res, replies):
+    op, m = case["op"], replies[0]
+    for r in replies:
+        if "err" in r:
+            return f"model driver error: {r['err']}"
+    if op == "slice_args":
+        if "e" in m:
+            want = _MODEL_EXC[m["e"]]
+            if (res.get("e"), res.get("phase")) != want:
+                return f"impl {res} vs model {m}"
+        elif "e" in res or res["r"] != m["r"]:
+            return f"impl {res} vs model {m}"
+        if "repr" in res and res["repr"] != m["repr"]:
+            return f"impl repr {res['repr']} vs model {m['repr']}"
+        if "repr" in res and (case["ctor"] == "ISlice") != ("DeprecationWarning" in res["warn"]):
+            return f"{case['ctor']}: warnings {res['warn']}"
+        return None
+    if op == "eqrepr":
+        if res["eq"] != m["eq"] or res["repr"] != m["repr"]:
+            return f"impl {res} vs model {m}"
+        if res["ne"] == res["eq"] or res["refl"] is not True or res["sym"] != res["eq"] or any(res["other"]):
+            return f"__eq__ is not coherent: {res}"
+        return None
+    if op == "init_check":
+        mm = {"TypeError": "Other:TypeError"}.get(m["r"], m["r"])
+        return None if res["r"] == mm else f"impl {res['r']} vs model {mm}"
+    if op == "chunks_c":
+        if "e" in res:
+            return f"impl raised {res} vs model {m}"
+        if res["r"] != m["r"]:
+            return f"impl {res['r']} vs model {m['r']}"
+        xs, cs = _cvals(case), case["cs"]
+        if replies[1]["r"] != [xs[i:i + cs] for i in range(0, len(xs) - cs + 1)]:
+            return f"Lean windows {replies[1]['r']} differs from the Python reference"
+        return None
     raise ValueError(op)
 
 
@@ -818,11 +1201,12 @@ def oracle(case, res):
             if res.get("e") != "LenaValueError" or res.get("phase") != "init":
                 return f"Slice{_args(case)} with step {s} must raise LenaValueError at construction, got {res}"
             return None
+        fk = f" given as a {case['flow']}" if case.get("flow") else ""
         if "e" in res:
-            return f"Slice{_args(case)} raised {res} on flow {_vals(case)}"
+            return f"Slice{_args(case)} raised {res} on flow {_vals(case)}{fk}"
         ref = _encs(_vals(case)[case["start"]:case["stop"]:s])
         if res["r"] != ref:
-            return f"Slice{_args(case)}.run({_vals(case)}) = {res['r']} but xs[start:stop:step] = {ref}"
+            return f"Slice{_args(case)}.run({_vals(case)}{fk}) = {res['r']} but xs[start:stop:step] = {ref}"
         return None
     if op == "fill_into":
         if "e" in res:
@@ -847,6 +1231,8 @@ def oracle(case, res):
         return None
     if op in ("sess", "twins", "fill_trace", "fill2", "slice_inst"):
         return _oracle_reuse(case, res)
+    if op in ("slice_args", "eqrepr", "init_check", "chunks_c"):
+        return _oracle_ext(case, res)
     if "e" in res:
         return f"{op} raised {res} (case {case})"
     if op == "reverse":
@@ -861,6 +1247,67 @@ def oracle(case, res):
     if op == "chunks":
         ref = _windows(case, vals=True)
         return None if res["r"] == ref else f"RunningChunkBy({case['cs']}) gives {res['r']}, windows = {ref}"
+    raise ValueError(op)
+
+
+def _oracle_ext(case, res):
+    op = case["op"]
+    if op == "slice_args":
+        args = [_dec(a) for a in case["args"]]
+        if not 1 <= len(args) <= 3:
+            return None                     # not a call form of the property
+        a, b, s = {1: [None, args[0], None], 2: args + [None], 3: args}[len(args)]
+        name = f"{case['ctor']}({', '.join(map(repr, args))})"
+        if any(isinstance(v, float) for v in (a, b)):
+            return None
+        rejected = res.get("e") == "LenaValueError" and res.get("phase") == "init"
+        if isinstance(s, float) or (s is not None and s < 1):
+            # "rejects other steps with LenaValueError at construction"
+            return None if rejected else f"{name}: the step {s!r} must be rejected with LenaValueError at construction, got {res}"
+        huge_index = any(v is not None and abs(v) > _MS for v in (a, b))
+        if s is not None and s > _MS:
+            # a positive step, but beyond itertools.islice: sliced correctly or rejected at construction, never later
+            if rejected:
+                return None
+            if huge_index:
+                return None
+            xs = list(range(case["n"]))
+            if "e" in res or res["r"] != xs[a:b:s]:
+                return (f"{name} was accepted at construction but run gives {res} (a step is used correctly or "
+                        f"rejected with LenaValueError at construction)")
+            return None
+        if huge_index:
+            return None                     # beyond ssize_t: a limit of islice / deque, see ASSUMPTIONS
+        xs = list(range(case["n"]))
+        fk = f" given as a {case['flow']}" if case.get("flow") else ""
+        if "e" in res:
+            return f"{name} raised {res} on the flow {xs}{fk}"
+        if res["r"] != xs[a:b:s]:
+            return f"{name}.run({xs}{fk}) = {res['r']} but xs[start:stop:step] = {xs[a:b:s]}"
+        return None
+    if op == "eqrepr":
+        return None                         # __eq__/__repr__ are outside the statement: correspondence only
+    if op == "init_check":
+        if case["el"] == "countfrom":
+            # CountFrom(start, step) is itertools.count(start, step): it exists iff the reference exists
+            if (res["r"] == "ok") != (res["ref"] == "ok"):
+                return (f"CountFrom({_dec(case['start'])!r}, {_dec(case['step'])!r}) construction: {res['r']}, "
+                        f"itertools.count: {res['ref']}")
+        return None
+    if op == "chunks_c":
+        cs = case["cs"]
+        if cs < 1:
+            return None                     # the property speaks about chunk sizes >= 1
+        if "e" in res:
+            return f"RunningChunkBy({cs}, {case['container']}) raised {res}"
+        xs = _cvals(case)
+        kind = {"tuple": "tuple", "list": "list", "star": "list", "namedtuple": "list", "set": "set"}[case["container"]]
+        ref = [{"k": kind, "v": sorted(set(xs[i:i + cs])) if kind == "set" else xs[i:i + cs]}
+               for i in range(0, len(xs) - cs + 1)]
+        if res["r"] != ref:
+            return (f"RunningChunkBy({cs}, container {case['container']}).run({xs}) gives {res['r']}, the sliding "
+                    f"windows in that container are {ref}")
+        return None
     raise ValueError(op)
 
 
@@ -919,6 +1366,12 @@ def _oracle_reuse(case, res):
     if op == "sess":
         # the same schedule played on the reference objects (a fresh reference object per call)
         ref = _play(case, _ref_spawner(case))
+        if _shared(case):
+            if res["ev"] == ref["ev"] and res["left"] == ref["left"]:
+                return None
+            return (f"{_el_text(case)} called as in the schedule {case['ops']} yielded {res['ev']} and left "
+                    f"{res['left']} in its iterators; itertools.chain(*iterables) in place of each call yields "
+                    f"{ref['ev']} and leaves {ref['left']} ([g, v] = generator g yielded v, None = StopIteration)")
         if res["ev"] == ref["ev"] and res["rest"] == ref["rest"]:
             return None
         got, bad = _per_gen(res["ev"], res["rest"])
@@ -997,6 +1450,8 @@ def nontrivial(case, res):
         return "e" in res or bool(res.get("ev"))
     if case["op"] in ("twins", "fill2"):
         return "e" in res or bool(res.get("a")) or bool(res.get("b"))
+    if case["op"] in ("eqrepr", "init_check"):
+        return True
     return "e" in res or bool(res.get("r"))
 
 
@@ -1016,10 +1471,25 @@ def classify(case, res):
         return [f"twins:{case['el']}"]
     if op == "slice_inst":
         return ["slice_inst:" + case.get("pat", "?")]
+    if op == "slice_args":
+        big = any(isinstance(a, int) and abs(a) >= _MS for a in case["args"])
+        return [f"slice_args:{case['ctor']}:{len(case['args'])}" + (":big" if big else ""),
+                "slice_args:" + (res.get("e", "ok") + ":" + res.get("phase", ""))]
+    if op in ("eqrepr", "init_check"):
+        return [f"{op}:{case['el']}"]
+    if op == "chunks_c":
+        return [f"chunks_c:{case['container']}"]
     return [op]
 
 
 def signature(case, failure):
+    neg = any(isinstance(v, int) and v < 0 for v in
+              ([case.get("start"), case.get("stop")] if "args" not in case else case["args"][:2]))
+    if neg and (case.get("flow") or case.get("fk")) in ("list", "tuple", "range"):
+        return "slice-negative-index-container-flow"            # notes/C17_defect_1
+    if neg and case.get("op") == "slice_args" and len(case["args"]) == 3 and \
+            (isinstance(case["args"][2], str) or (isinstance(case["args"][2], int) and case["args"][2] > _MS)):
+        return "slice-negative-index-step-not-validated"        # notes/C17_defect_2
     c = dict(case)
     if "ops" in c:
         # one report per element configuration and schedule family, not per schedule
@@ -1045,6 +1515,13 @@ def shrink(case):
         for i, l in enumerate(case["lens"]):
             if l > 0:
                 yield dict(case, lens=case["lens"][:i] + [l - 1] + case["lens"][i + 1:])
+    if case["op"] == "slice_args":
+        args = case["args"]
+        for i, v in enumerate(args):
+            if isinstance(v, int) and abs(v) > 8 and abs(v) < _MS - 8:
+                yield dict(case, args=args[:i] + [v // 2] + args[i + 1:])
+            elif isinstance(v, int) and v != 0 and abs(v) <= 8:
+                yield dict(case, args=args[:i] + [v - 1 if v > 0 else v + 1] + args[i + 1:])
     for k in ("start", "stop"):
         v = case.get(k)
         if isinstance(v, int) and v != 0:
@@ -1059,7 +1536,9 @@ LEVEL_TEXT = ("Lean 4 theorems about a transcribed model of Slice/Reverse/Chain/
               "fill_into for all non-negative combinations) on every run, plus a direct Python-slicing oracle on the real code. "
               "Repeated and interleaved use of one instance is modelled as a state machine (sessions): theorems say that every "
               "call/run equals the reference whatever the history; the correspondence and the oracle drive the real elements "
-              "through the same schedules.")
+              "through the same schedules. The rest of the anchored code is modelled too (Model/C17Ext.lean): the sys.maxsize limits "
+              "of islice/deque, the call forms and ISlice, __eq__/__repr__, type checks at construction, the containers of "
+              "RunningChunkBy, Chain over one-shot iterators shared by all calls (conservation theorem).")
 LEVEL_NOTE = ("Trusted: Lean kernel (+ propext, Classical.choice, Quot.sound), the hand transcription validated by the "
               "exhaustive-in-scope correspondence run, itertools/deque semantics as transcribed, the JSON protocol.")
 TECHNIQUE = "Lean 4 proof over hand-written model + exhaustive-in-scope correspondence check"
